@@ -20,7 +20,7 @@ ASSUMPTIONS = [
     'daemons that do not obey the flag are generated with a cancellation_timeout (otherwise they legitimately run forever)',
     'the API-server model and virtual time of kopfsim',
 ]
-BUDGET = {'quick': 120, 'thorough': 1500}
+BUDGET = {'quick': 130, 'thorough': 1500}
 EPS = 1e-6
 FINDING_B = 'C09-B-instances-survive-disappearance-without-deletion-mark'
 FINDING_P = 'C09-P-rematch-during-stopping-freezes-termination'
@@ -97,7 +97,20 @@ def scenarios(draw):
         first[-1]['dt'] = draw(st.sampled_from([0.1, 0.5, 1.0, 2.0]))
         actions = first + [{'a': 'peer_on', 'lifetime': 60, 'dt': draw(st.sampled_from([15.0, 25.0]))},
                            {'a': 'peer_off', 'dt': draw(st.sampled_from([0.5, 3.0]))}]
+        if draw(st.integers(0, 2)) == 0:
+            actions = first + [{'a': 'advance', 'dt': 15.0}]      # (the same without the pause: the plain staged termination)
     end = draw(st.sampled_from(['run', 'run', 'stop']))
+    if draw(st.integers(0, 9)) == 0:
+        # several daemons of one object that leave at once when the operator stops or pauses (they drop out of the object's
+        # set of running daemons while that set is being gone through)
+        handlers = [{'kind': 'daemon', 'id': f'm{i}', 'behaviour': 'obey', 'labels': None, 'initial_delay': None, 'cancellation_backoff': draw(st.sampled_from([None, 0.5])),
+                     'cancellation_timeout': draw(st.sampled_from([None, 1.0])), 'exit_delay': draw(st.sampled_from([0, 0, 0.3])), 'duration': 0, 'script': []}
+                    for i in range(draw(st.integers(2, 3)))] + [{'kind': 'event', 'id': 'ev', 'script': [], 'duration': 0}]
+        actions = [{'a': 'create', 'obj': 0, 'v': 1, 'dt': draw(st.sampled_from([0.5, 2.0]))}, {'a': 'create', 'obj': 1, 'v': 1, 'dt': draw(st.sampled_from([0.0, 1.0]))}]
+        if draw(st.booleans()):
+            peering = True
+            actions += [{'a': 'peer_on', 'lifetime': 60, 'dt': draw(st.sampled_from([2.0, 5.0]))}, {'a': 'peer_off', 'dt': 3.0}]
+        end = 'stop'
     spec = {'handlers': handlers, 'settings': {'background.cancellation_polling': 2.0, 'persistence.consistency_timeout': 1.0,
                                                'peering.priority': 10, 'queueing.idle_timeout': draw(st.sampled_from([5.0, 0.5]))}}
     return {'seed': draw(st.integers(0, 9999)), 'spec': spec, 'cluster': {}, 'actions': actions, 'peering': peering, 'end': end}
